@@ -130,6 +130,7 @@ func runOpPair(a *args, res *result) {
 			tripleSweep(res, kind, stuckCh)
 			configPair(res, kind, stuckCh)
 			tickClock(res, kind)
+			refreshOnEvict(res, kind)
 		}
 	}
 	vshim.SetTokenMode(false)
@@ -819,6 +820,101 @@ func tickClock(res *result, kind string) {
 					Msg:  fmt.Sprintf("%s: entry expires at +%d, clock read at +%d..+%d during the call: %s; afterwards (+%d): %s", kind, e0-before, 0, after-before-1, h, T-before, f),
 					Case: map[string]any{"kind": kind, "A": A.name, "j": j}})
 				return
+			}
+		}
+	}
+}
+
+// refreshOnEvict: an evicted callback that stores entries again (the
+// "reload on eviction" idiom): the same key, its sibling, or the next key, all of
+// which may be part of the very sweep that is reporting. Conservation oracle that
+// holds however the sweep interleaves removal and reporting: the number of
+// callbacks equals the number of entries physically removed, and that number is
+// Count before - Count after + the inserts the callbacks made (an insert is a
+// re-entrant Set that raised Count; a Set that replaced a not yet removed entry
+// did not). Every reported value is one of the original values, at most once.
+func refreshOnEvict(res *result, kind string) {
+	const n = 40
+	for _, target := range []string{"same", "sibling", "next"} {
+		for _, how := range []string{"DeleteExpired", "Delete", "GetAndDelete"} {
+			vshim.SetVNow(epoch)
+			var c cacheAPI
+			orig := map[any]int{}
+			reported := map[any]int{}
+			var foreign []string
+			inserts, cbs := 0, 0
+			depth := 0
+			cb := func(k int, v any) {
+				cbs++
+				if _, ok := orig[v]; ok {
+					reported[v]++
+				} else if len(foreign) < 3 {
+					foreign = append(foreign, fmt.Sprintf("(k%d,%s)", k, fmtVal(v)))
+				}
+				if depth > 0 {
+					return
+				}
+				depth++
+				defer func() { depth-- }()
+				t := k
+				switch target {
+				case "sibling":
+					t = k ^ 1
+				case "next":
+					t = (k + 1) % n
+				}
+				n0 := c.Count()
+				c.Set(t, nextVal(t), time.Hour)
+				inserts += c.Count() - n0
+			}
+			c = newCache(cacheSpec{Flavor: kind, Ctor: "New", OptMask: 1 | 2 | 4, DefExp: time.Hour, Interval: 0, NKeys: 64, Callback: cb})
+			for k := 0; k < n; k++ {
+				v := nextVal(k)
+				orig[v] = k
+				d := time.Duration(5)
+				if how != "DeleteExpired" {
+					d = time.Hour
+				}
+				c.Set(k, v, d)
+			}
+			logCase("oppair refresh-on-evict %s target=%s how=%s", kind, target, how)
+			res.Evaluations++
+			c0 := c.Count()
+			switch how {
+			case "DeleteExpired":
+				vshim.SetVNow(epoch + 10)
+				c.DeleteExpired()
+			case "Delete":
+				for k := 0; k < n; k += 2 {
+					c.Delete(k)
+				}
+			default:
+				for k := 0; k < n; k += 2 {
+					c.GetAndDelete(k)
+				}
+			}
+			c1 := c.Count()
+			res.count("refresh_on_evict_scenarios", 1)
+			fp := newFP()
+			fp.addStr("refresh-on-evict" + kind + target + how)
+			res.nontrivial(fp.sum())
+			bad := func(sig, msg string) {
+				res.violate(violation{Class: "oppair", Sig: sig, Msg: fmt.Sprintf("%s, %d entries, %s with a callback that stores the %s key again: %s", kind, n, how, target, msg),
+					Case: map[string]any{"kind": kind, "target": target, "how": how}})
+			}
+			removed := c0 + inserts - c1
+			if len(foreign) > 0 {
+				bad("evicted callback reports a value that was not removed", fmt.Sprintf("%v (only the %d original values can have been removed)", foreign, n))
+				continue
+			}
+			for v, times := range reported {
+				if times > 1 {
+					bad("evicted callback fired twice for one stored value", fmt.Sprintf("%s reported %d times", fmtVal(v), times))
+					break
+				}
+			}
+			if cbs != removed {
+				bad("removals and evicted callbacks do not balance when the callback stores entries again", fmt.Sprintf("%d callbacks, %d entries removed (Count %d -> %d, %d inserts by the callbacks)", cbs, removed, c0, c1, inserts))
 			}
 		}
 	}
